@@ -40,6 +40,7 @@ def _o(routine, func, shapes_quick, shapes_thorough, what, **kw):
 HARNESSES += [
  _o('outer', 'h_outer', [((2,), (3,)), ((2, 2), (2,)), ((2,), (2, 2))], [((3,), (3,)), ((2, 2), (3,))], 'out[i,j] = a.flat[i]*b.flat[j]'),
  _o('trace', 'h_trace', [((2, 3), None), ((3, 3), None), ((2, 2, 2), None)], [((3, 2), None), ((2, 3, 2), None)], 'offset 0, axes (0,1)'),
+ _o('trace', 'h_trace_offset', [((3, 2), None), ((2, 3), None)], [((3, 3), None), ((2, 4), None), ((4, 2), None)], 'symbolic offset over every non-empty diagonal (positive and negative), axes (0,1)', suffix='_offset'),
  _o('kron', 'h_kron', [((2,), (2,)), ((2, 1), (1, 2)), ((2, 2), (2, 2))], [((2,), (3,))], 'np.kron of same-dim operands'),
  # measured (machine loaded 2-3x): 1-d x 1-d 30 s; (2,3)x(3,) 214 s / 3.8 GB; (2,3)x(2,3) out of memory at 5.3 GB in 65 s
  _o('vecdot', 'h_vecdot', [((3,), (3,))], [((3,), (3,))], 'sum over the last axis of the broadcast product'),
@@ -88,7 +89,7 @@ OUTSIDE = [
  '2-d operands of vecdot / dot / inner / tensordot are attempted in the thorough tier only (harnesses *_el_2d, optional: a timeout is recorded as no-verdict). Measured on a machine loaded 2-3x: '
  'vecdot (2,3)x(3,) holds 214-767 s / 3.8 GB, (2,3)x(1,3) holds 500 s / 6.1 GB, (2,3)x(2,3) no verdict in 900 s; dot (2,2)x(2,) holds 126-711 s / 3.9 GB, (2,3)x(3,) holds 261 s, (2,2)x(2,2) no verdict in 900 s; '
  'inner (2,2)x(2,) holds 251-278 s / 4.0 GB, (2,3)x(3,) and (2,2)x(2,2) no verdict in 900 s; tensordot (2,3)x(2,3) axes=2 holds 60 s, (2,2)x(2,2) axes=1 no verdict in 300-900 s. Only returned verdicts are claimed',
- 'tensordot with explicit axis pairs, kron of operands with different dims, trace with offset/other axes, dot/inner of n-d x m-d operands',
+ 'tensordot with explicit axis pairs, kron of operands with different dims, dot/inner of n-d x m-d operands',
  'mismatching operand shapes (C15: view::matmul unwraps a Nothing shape - see C15 PENDING_FINDINGS)',
  'float accumulation order, SIMD matmul, shape helper functions of dot/inner/kron/tensordot in isolation (covered through the routines\' result shapes at the enumerated shapes)',
 ]
